@@ -3,7 +3,7 @@
     StandardPathView::try_reverse and the original OneHopPathView::expiration are modelled
     here and shown to violate the property on concrete inputs; the same inputs satisfy it on
     the repaired model (Model.v). *)
-From Sci Require Import StdPath.Model StdPath.Spec.
+From Sci Require Import StdPath.Model StdPath.ModelRouting StdPath.Spec Common.AesCmac.
 Local Open Scope N_scope.
 
 (** view.rs before the repair: the segment lengths are swapped BEFORE the two range checks,
@@ -70,4 +70,27 @@ Lemma onehop_expiration_panics_refuted :
   oh_view_ok w_onehop_late = true /\ oh_view_expiration_orig w_onehop_late = Panic P_ADD_U32.
 Proof. vm_compute. split; reflexivity. Qed.
 Lemma onehop_expiration_repaired : oh_view_expiration w_onehop_late = Ok U32_MAX.
+Proof. vm_compute. reflexivity. Qed.
+
+(** onehop/{view,model}.rs before the repair: set_second_hop of the MODEL wrote ExpTime 0 into
+    the second hop (the view and the reference router copy it from the first hop) and the VIEW
+    kept whatever flags the second hop carried (the model clears them): the same call on the two
+    representations of the same path built different second hops, with different MACs *)
+Definition oh_model_set_second_hop_orig (cmac : list N -> list N -> list N) (p : onehop)
+           (ingress_interface : N) (key : list N) (advanced : bool) : onehop :=
+  let beta := if advanced then i_segid (o_info p) else mac_beta_step (i_segid (o_info p)) (h_mac (o_hop1 p)) in
+  mkOne (o_info p) (o_hop1 p)
+        (mkHop 0 0 ingress_interface 0 (calculate_hop_mac cmac beta (i_ts (o_info p)) 0 ingress_interface 0 key)).
+Definition w_onehop_model : onehop :=
+  mkOne (mkInfo 1 4660 1700000000) (mkHop 0 63 0 5 [1; 2; 3; 4; 5; 6]) (mkHop 0 0 0 0 [0; 0; 0; 0; 0; 0]).
+Lemma onehop_set_second_hop_disagrees_refuted :
+  onehop_typed w_onehop_model = true
+  /\ oh_view_set_second_hop aes_cmac (oh_encode w_onehop_model) 7 (repeat 9 16) true
+     <> oh_encode (oh_model_set_second_hop_orig aes_cmac w_onehop_model 7 (repeat 9 16) true)
+  /\ hf_exp (oh_hop2 (oh_view_set_second_hop aes_cmac (oh_encode w_onehop_model) 7 (repeat 9 16) true)) = 63
+  /\ h_exp (o_hop2 (oh_model_set_second_hop_orig aes_cmac w_onehop_model 7 (repeat 9 16) true)) = 0.
+Proof. vm_compute. refine (conj eq_refl (conj _ (conj eq_refl eq_refl))). discriminate. Qed.
+Lemma onehop_set_second_hop_repaired :
+  oh_view_set_second_hop aes_cmac (oh_encode w_onehop_model) 7 (repeat 9 16) true
+  = oh_encode (oh_model_set_second_hop aes_cmac w_onehop_model 7 (repeat 9 16) true).
 Proof. vm_compute. reflexivity. Qed.
